@@ -39,3 +39,49 @@ def registry_projection(plugin_registry) -> dict:
                 str(getattr(plugin, "format", "")),
             ]
     return projection
+
+
+def digest(values) -> str:
+    """Short hex content digest of a vector of floats (bytes of its float64 representation)."""
+    import hashlib
+
+    import numpy as np
+
+    array = np.ascontiguousarray(np.asarray(values, dtype=np.float64))
+    return hashlib.blake2b(array.tobytes(), digest_size=6).hexdigest()
+
+
+def optimizer_lengths(optimizer) -> dict:
+    """Lengths of the lists the estimation providers of an optimizer reuse between evaluations."""
+    penalty, clps, residuals = [], [], []
+    for group in optimizer._optimization_groups:
+        provider = group._estimation_provider
+        penalty.append(len(provider._clp_penalty))
+        for store, lengths in ((provider._clps, clps), (provider._residuals, residuals)):
+            if isinstance(store, dict):
+                lengths.extend(-1 if item is None else len(item) for item in store.values())
+            else:
+                lengths.append(sum(item is not None for item in store))
+    return {"lp": penalty, "lc": clps, "lr": residuals}
+
+
+def values_digest(parameters) -> str:
+    """Digest of all parameter values of a ``Parameters`` object (no side effects)."""
+    return digest([parameter.value for parameter in parameters.all()])
+
+
+def free_digest(parameters, digits: int | None = None) -> str:
+    """Digest of the free parameters in optimizer space (no side effects, unlike the array getter)."""
+    values = [
+        parameter.get_value_and_bounds_for_optimization()[0]
+        for parameter in parameters.all()
+        if parameter.vary
+    ]
+    return rounded_digest(values, digits)
+
+
+def rounded_digest(values, digits: int | None = None) -> str:
+    """Digest of a float vector, optionally after rounding to ``digits`` significant digits."""
+    if digits is None:
+        return digest(values)
+    return digest([float(f"{float(value):.{digits}e}") for value in values])
